@@ -28,6 +28,8 @@ def run(ck):
     ck.clause("C18.2", "framing: separators, comment prefix, header prefix, header=False")
     ck.clause("C18.3", "Alignment string: writer template and reader split literals / unpack order agree")
     ck.clause("C18.4", "reader returns [] for a zero-record file")
+    ck.clause("C18.5", "without id filters every record is parsed, in file order (no row is dropped, merged or re-ordered)")
+    ck.clause("C18.6", "pair coordinates are looked up in the map whose id matches the record (as C10.2)")
     ctx = ck.ctx
     p = ctx.p
     w = extract_writer(ck)
@@ -184,6 +186,47 @@ def run(ck):
                         ok = ok and g
     ck.judge(ok, "C18.4", short(ra), ra.where, "a zero-record XMAP is read back as an empty list", found=detail,
              required=".empty guard dominating apply(...).tolist()")
+    all_records_parsed(ck, "C18.5")
+    from .c10 import pair_parser_lookups
+    pair_parser_lookups(ck, "C18.6")
+
+
+def all_records_parsed(ck, rule="C18.5"):
+    ctx = ck.ctx
+    ra = ctx.p.find_method("XmapReader", "readAlignments")
+    prm = [pp.name for pp in ra.call_params()]
+    facts = {}
+    for name in prm[1:]:
+        T.add_fact(facts, V(name), False)
+    n = 0
+    for pa in explore(ck, ra, facts=facts, unroll=(0, 1)):
+        if pa.outcome != "return":
+            continue
+        for x in T.subterms(pa.value):
+            if x[0] == "mcall" and x[2] == "apply":
+                n += 1
+                frame = x[1]
+                ok = frame[0] == "app" and frame[1].endswith("BionanoFileReader.readFile")
+                if ok:
+                    ck.ok(rule, short(ra) + ":all-rows", where(ra, pa.node), "with no id filter the parsed frame is exactly what was read")
+                else:
+                    ops = [y[2] for y in T.subterms(frame) if y[0] == "mcall"]
+                    ck.violation(rule, short(ra) + ":all-rows", where(ra, pa.node),
+                                 "rows are dropped, merged or re-ordered between reading and parsing although no id filter was given: the "
+                                 "reader no longer returns one alignment per record in file order", found=f"{' -> '.join(reversed(ops))}: "
+                                 + T.show(frame)[-200:], required="readFile(...) result parsed row by row")
+        # the no-filter path must not filter
+    if n == 0:
+        # no apply-chain: accept comprehension over iterrows / itertuples of the frame that was read
+        for pa in explore(ck, ra, facts=facts, unroll=(0, 1)):
+            if pa.outcome == "return" and pa.value[0] == "comp":
+                it = pa.value[3][0][0]
+                src = [y for y in T.subterms(it) if y[0] == "app" and y[1].endswith("BionanoFileReader.readFile")]
+                drops = [y[2] for y in T.subterms(it) if y[0] == "mcall" and y[2] not in ("iterrows", "itertuples")]
+                n += 1
+                ck.judge(bool(src) and not drops and not pa.value[3][0][1], rule, short(ra) + ":all-rows", where(ra, pa.node),
+                         "with no id filter every row that was read is parsed", found=T.show(it)[:200])
+    ck.floor(f"{rule} unfiltered return paths of readAlignments", n, 1)
 
 
 def _leading_literal(line):
